@@ -1,4 +1,36 @@
-import PeptVerif.Model.Proto
-/-! driver for C12 (placeholder: replies bad-op to everything until the model is written) -/
-def step (_line : String) : String := "bad-op"
-def main : IO Unit := Proto.runDriver step
+import PeptVerif.Model.AbsMassWire
+/-! driver for C12: static rules, count_residues, abstract mass / composition -/
+open Pept Pept.Static Pept.AbsMass Pept.AbsWire Proto
+
+def withAnn (s : String) (f : Annotation → String) : String :=
+  match Wire.parseAnnotation? s with
+  | some a => f a
+  | none => "bad-op"
+
+def step (line : String) : String :=
+  match splitTab line with
+  | ["parse_static", a] => withAnn a fun a => showExcept showStaticMap (parseStaticMods a.static)
+  | ["mods_of", a] => withAnn a fun a => ",".intercalate ((modsOf a).map Wire.showVal)
+  | ["literal", a] => withAnn a fun a => if rulesLiteral a then "1" else "0"
+  | ["condense", a] => withAnn a fun a => showExcept Wire.showAnnotation (condenseStatic a)
+  | ["count", a] => withAnn a fun a => showExcept showCounter (countResidues a)
+  | ["count_raw", a] => withAnn a fun a => showCounter (countResiduesRaw a)
+  | ["serialize", a, plus] =>
+    match parseBool? plus with
+    | some plus => withAnn a fun a => Wire.esc (serialize a plus)
+    | none => "bad-op"
+  | ["convert_type", s] =>
+    match Wire.unesc s with
+    | some s => Wire.showVal (convertType s)
+    | none => "bad-op"
+  | ["mass", a, res, mu, adj, aac, mr, ion, chg, em, flg] =>
+    match parseEnv? res mu adj aac mr ion chg em flg with
+    | some E => withAnn a fun a => showExcept showRat (massOf E a)
+    | none => "bad-op"
+  | ["comp_mass", a, res, mu, adj, aac, mr, ion, chg, em, flg] =>
+    match parseEnv? res mu adj aac mr ion chg em flg with
+    | some E => withAnn a fun a => showExcept (fun p => showComp p.1 ++ "|" ++ showRat p.2) (compMassOf E a)
+    | none => "bad-op"
+  | _ => "bad-op"
+
+def main : IO Unit := runDriver step
